@@ -23,6 +23,8 @@ let () = run_protocol [
   "pre_sample", (function [idx; pos; f] -> let (p, ff) = pre_sample o (gnv idx) (gm pos) (gm f) in VT [VM p; VM ff] | _ -> failwith "arity");
   "sturges", (function [n] -> VZ (int_of_z (sturges (gn n))) | _ -> failwith "arity");
   "std_bins", (function [ll; r; pos] -> VV (std_bins o (gb ll) (gf r) (gm pos)) | _ -> failwith "arity");
+  "std_bins_kw", (function [ll; r; pos; hb; bn; hm; md] ->
+      VV (std_bins_kw o (gb ll) (gf r) (gm pos) (if gb hb then Some (gn bn) else None) (if gb hm then Some (gf md) else None)) | _ -> failwith "arity");
   "pre_edges", (function [ll; r; e] -> VV (pre_edges o (gb ll) (gf r) (gv e)) | _ -> failwith "arity");
   "centers", (function [e] -> VV (centers o (gv e)) | _ -> failwith "arity");
   "generate_grid", (function axes -> VM (generate_grid o (List.map gv axes)));
